@@ -101,7 +101,8 @@ pub fn gen_case(rng: &mut Rng, corpus: &[(String, Vec<u8>)], idx: usize) -> CliC
                 c
             }
         };
-        let _ = k;
+        // > 1 MB in a multi-byte code page (character boundary at byte 500 000): what gets written must
+        // still be the whole text
         files.push((name, content));
     }
     let mut args_files: Vec<String> = files.iter().map(|f| f.0.clone()).collect();
@@ -152,6 +153,19 @@ pub fn gen_case(rng: &mut Rng, corpus: &[(String, Vec<u8>)], idx: usize) -> CliC
         normalize = true;
         replace = false;
         force = false;
+    }
+    // > 1 MB in a multi-byte code page (character boundary at byte 500 000): what gets written must
+    // still be the whole text (plain invocation: valid flags, default threshold, the file exists)
+    let mut threshold = threshold;
+    if idx == 4 || idx % 97 == 53 {
+        let (content, enc) = large_multibyte_file(rng);
+        let name = format!("big-{}.txt", enc);
+        files = vec![(name.clone(), content)];
+        args_files = vec![name];
+        normalize = true;
+        replace = idx % 2 == 1;
+        force = replace;
+        threshold = None;
     }
     CliCase { files, args_files, alternatives, normalize, minimal, replace, force, threshold }
 }
